@@ -27,7 +27,7 @@ FRESH_CALLS = {"set", "list", "dict", "tuple", "frozenset", "defaultdict", "Coun
                "Other", "NotNull", "_gen_nt", "slash", "f", "bot", "Digraph", "WFSA", "FST", "CFG", "EarleyLM", "Earley", "CKYLM",
                "IncrementalCKY", "_CKYModel", "Entropy", "Real", "MaxPlus", "MaxTimes", "Log", "name", "rename", "Semiring",
                "prefix_transducer", "epsilon_filter_fst", "ValueError", "NotImplementedError", "AssertionError", "TypeError", "KeyError",
-               "locally_normalize", "add_EOS", "interegular_to_wfsa", "scc_decomposition", "approx_equal", "proj", "super"}
+               "locally_normalize", "add_EOS", "interegular_to_wfsa", "scc_decomposition", "approx_equal", "proj", "super", "next", "zip_longest"}
 
 # methods that return a fresh object whatever the receiver (receiver not modified)
 FRESH_METHODS = {"spawn", "copy", "chart", "items", "keys", "values", "split", "strip", "encode", "join", "format", "replace",
